@@ -519,37 +519,37 @@ func init() { register("C13", checkC13) }
 
 // reachesWithout: starting after instruction index idx of block b, can `to` be executed before `avoid`?
 func reachesWithout(b *ssa.BasicBlock, idx int, to, avoid ssa.Instruction) bool {
-	type st struct {
-		b   *ssa.BasicBlock
-		idx int
+	// the rest of the first block, then the path-sensitive traversal (infeasible "error recorded, yet the
+	// success branch taken" paths are not walked)
+	for i := idx; i < len(b.Instrs); i++ {
+		if b.Instrs[i] == to {
+			return true
+		}
+		if b.Instrs[i] == avoid {
+			return false
+		}
 	}
-	seen := map[*ssa.BasicBlock]bool{}
-	work := []st{{b, idx}}
-	for len(work) > 0 {
-		s := work[len(work)-1]
-		work = work[:len(work)-1]
-		stop := false
-		for i := s.idx; i < len(s.b.Instrs); i++ {
-			ins := s.b.Instrs[i]
+	var start []psItem
+	for _, s := range feasibleSuccs(b, nilState{}, false) {
+		start = append(start, psItem{s.blk, enterBlock(b, s.blk, s.st)})
+	}
+	hit := false
+	explore(start, nil, false, func(blk *ssa.BasicBlock, _ nilState) bool {
+		if hit {
+			return false
+		}
+		for _, ins := range blk.Instrs {
 			if ins == to {
-				return true
+				hit = true
+				return false
 			}
 			if ins == avoid {
-				stop = true
-				break
+				return false
 			}
 		}
-		if stop {
-			continue
-		}
-		for _, n := range s.b.Succs {
-			if !seen[n] {
-				seen[n] = true
-				work = append(work, st{n, 0})
-			}
-		}
-	}
-	return false
+		return true
+	})
+	return hit
 }
 
 var notifierMemo = map[*ssa.Function]bool{}
